@@ -59,7 +59,7 @@ fn op_cpr(a: &str, b: &str) -> String {
     }
     match (alt(a), alt(b)) {
         (Some(x), Some(y)) => match cpr::get_position((&x, &y)) {
-            Some(p) => format!("POS some lat={:.12} lon={:.12}", p.latitude, p.longitude),
+            Some(p) => format!("POS some lat={:.6} lon={:.6}", p.latitude * 1000.0, p.longitude * 1000.0),
             None => "POS none".into(),
         },
         _ => "POS n/a".into(),
@@ -80,6 +80,22 @@ fn op_icao(hex: &str) -> String {
     }
 }
 
+/// `S <hex>`: serde_json round trip of a decoded frame (Debug text must survive)
+#[cfg(feature = "serde")]
+fn op_serde(hex: &str) -> String {
+    let Ok(b) = hex::decode(hex) else { return "BADOP".into() };
+    match Frame::from_bytes(&b) {
+        Ok(f) => {
+            let js = match serde_json::to_string(&f) { Ok(j) => j, Err(e) => return format!("SERDE ser-error {e}") };
+            match serde_json::from_str::<Frame>(&js) {
+                Ok(g) => if format!("{f:?}") == format!("{g:?}") { "SERDE same".into() } else { format!("SERDE DIFF {js}") },
+                Err(e) => format!("SERDE de-error {e} {js}"),
+            }
+        }
+        Err(e) => canon::err(&e),
+    }
+}
+
 fn run_op(line: &str, st: &mut track::State) -> String {
     let parts: Vec<&str> = line.split_whitespace().collect();
     match parts.as_slice() {
@@ -88,6 +104,8 @@ fn run_op(line: &str, st: &mut track::State) -> String {
         ["V", h] => op_velocity(h),
         ["P", a, b] => op_cpr(a, b),
         ["I", h] => op_icao(h),
+        #[cfg(feature = "serde")]
+        ["S", h] => op_serde(h),
         #[cfg(feature = "std")]
         ["R", h, s] => sched::op_reader(h, s),
         ["T", rest @ ..] => track::op(st, rest),
